@@ -7,7 +7,7 @@ set -u
 ID="$1"; MD="$(readlink -f "$2")"; shift; shift
 CHECKS="${*:-$ID}"
 export GOFLAGS=-mod=mod GOPROXY=off GOSUMDB=off GOTOOLCHAIN=local
-tag="$ID-$(basename "$MD")"
+tag="$ID-$(basename "$MD")-$$"
 WT=/tmp/mc/wt-$tag; OUT=/tmp/mc/out-$tag
 rm -rf "$OUT"; mkdir -p /tmp/mc "$OUT"
 git -C /repo worktree remove --force "$WT" >/dev/null 2>&1
